@@ -122,6 +122,22 @@ claimed["C20"] = dict(
          "against the same router without the middleware (identical status, headers, bytes, panic value).",
     design="5 C20", technique=T)
 
+claimed["C13"] = dict(
+    text="Bounded symbolic execution of the real New / applyMiddleware / applyRouteMiddleware / NewRoute / Update and "
+         "ServeHTTP dispatch: global middleware registered through WithMiddleware or WithMiddlewareFor with solver-chosen "
+         "8-bit scope masks (and DefaultOptions), route middleware, all five handler kinds: the recorded trace equals "
+         "[globals whose mask meets the kind, in order] ++ [route middleware], each once; Route.Handle bare, "
+         "Route.HandleMiddleware route part only, Update replaces the route part, another route's creation changes nothing. "
+         "The concurrent-creation clause is listed in level_note.",
+    design="5 C13", technique=T, note="Concurrent creation of routes (data race on the shared middleware slice) is not decided by this check yet.")
+claimed["C19"] = dict(
+    text="Bounded symbolic execution of the real option closures, New, NewRoute, Handle, Update, Route accessors and "
+         "Context.ClientIP: every option sequence within the bounds (booleans solver-chosen) folds to the documented state "
+         "(last wins, one trailing-slash mode disables the other, nil per-route resolver means none, router-level nil "
+         "ignored, annotations last value per key); invalid options give ErrInvalidConfig / ErrInvalidRoute and the crash "
+         "monitor shows no reachable panic; ClientIP uses the route's resolver in route handlers and the router's elsewhere.",
+    design="5 C19", technique=T)
+
 reasons = {}
 
 ids = [json.loads(l)["id"] for l in open("/verif/properties.jsonl")]
